@@ -54,10 +54,10 @@ func NewWriteMultipleRegistersRequestTCP(unitID uint8, startAddress uint16, data
 	if registerByteCount%2 != 0 {
 		return nil, errors.New("data length must be even number of bytes")
 	}
-	registerCount := uint16(registerByteCount / 2)
-	if registerCount == 0 || registerCount > 124 {
-		return nil, fmt.Errorf("registers count out of range (1-124): %v", registerCount)
+	if registerByteCount == 0 || registerByteCount > 124*2 { // checked before conversion, count does not need to fit to uint16
+		return nil, fmt.Errorf("registers count out of range (1-124): %v", registerByteCount/2)
 	}
+	registerCount := uint16(registerByteCount / 2)
 
 	return &WriteMultipleRegistersRequestTCP{
 		MBAPHeader: MBAPHeader{
@@ -150,10 +150,10 @@ func NewWriteMultipleRegistersRequestRTU(unitID uint8, startAddress uint16, data
 	if registerByteCount%2 != 0 {
 		return nil, errors.New("data length must be even number of bytes")
 	}
-	registerCount := uint16(registerByteCount / 2)
-	if registerCount == 0 || registerCount > 124 {
-		return nil, fmt.Errorf("registers count out of range (1-124): %v", registerCount)
+	if registerByteCount == 0 || registerByteCount > 124*2 { // checked before conversion, count does not need to fit to uint16
+		return nil, fmt.Errorf("registers count out of range (1-124): %v", registerByteCount/2)
 	}
+	registerCount := uint16(registerByteCount / 2)
 
 	return &WriteMultipleRegistersRequestRTU{
 		WriteMultipleRegistersRequest: WriteMultipleRegistersRequest{
